@@ -10,8 +10,8 @@ import Hv.Misc.Hydrex
     `Hv.Hydrex.step`.  A case that uses a hostile key runs `stepX`, an executable extension that adds
     what the real stack does with such keys (it is compared with the implementation, not proved):
       * the gateway refuses swamp names that do not have exactly three non-empty parts, so the index swamp of a
-        key that is empty or contains '/' does not exist — and ONE such name in a CatalogSaveManyToMany /
-        CatalogDeleteManyFromMany request rejects the whole request (Hydrex only logs the error);
+        key that is empty or contains '/' does not exist — ONE such name in a CatalogSaveManyToMany request
+        rejects the whole request (Hydrex only logs the error), CatalogDeleteManyFromMany skips it;
       * an empty key also makes the whole CatalogSaveMany of the core data fail (conversion error).
     Flags: `C27-value-update-skipped`, `C27-stale-keys-kept`, `C27-destroy-leaves-index`,
     `C27-index-inconsistent`, and for hostile keys `C27-empty-key-save-ignored`,
@@ -57,8 +57,9 @@ def stepX (cfg : Cfg) (keys : List String) (s : St) (i : Idx) (d : Dom) (items :
   let hostile (k : Key) : Bool := isHostileTok (keys.getD k "?")
   let old := s.core i d
   match items with
-  | none =>   -- destroy: the index clean-up is ONE request; an invalid swamp name in it rejects all of it
-    let blockedDel := ks.any (fun k => (old k).isSome && hostile k)
+  | none =>   -- destroy
+    -- CatalogDeleteManyFromMany skips an invalid swamp name and goes on with the others
+    let blockedDel := false
     { core := fun i' d' k => if i' = i ∧ d' = d then none else s.core i' d' k,
       index := fun i' j d' =>
         if i' = i ∧ d' = d ∧ cfg.destroyCleansIndex ∧ !blockedDel ∧ (old j).isSome then false else s.index i' j d' }
@@ -72,7 +73,7 @@ def stepX (cfg : Cfg) (keys : List String) (s : St) (i : Idx) (d : Dom) (items :
     let fresh (k : Key) : Bool := (old k).isNone && (it k).isSome
     let coreBlocked := ks.any (fun k => writes k && empty k)       -- CatalogSaveMany: "key field must be a non-empty string"
     let addBlocked := ks.any (fun k => fresh k && hostile k)       -- CatalogSaveManyToMany: one invalid swamp name rejects the request
-    let delBlocked := ks.any (fun k => stale k && hostile k)       -- CatalogDeleteManyFromMany: likewise
+    let delBlocked := false                                        -- CatalogDeleteManyFromMany skips invalid names one by one
     { core := fun i' d' k =>
         if i' = i ∧ d' = d then
           (if stale k then none else if writes k && !coreBlocked then it k else old k)
